@@ -24,6 +24,11 @@ D1_GUARD_NEW = """        (Int(w1, _), Int(w2, _)) if w1 == w2 => { true }
 
 def build():
     U = Unit('TYPES', props=['C20', 'C08'])
+    add(U)
+    return U
+
+
+def add(U, with_lemmas=True, arith_op=True):
     f = U.file(T)
     f.item('enum', 'IsConst')
     f.item('type', 'Width')
@@ -31,7 +36,8 @@ def build():
     f.item('enum', 'ArrayDims')
     f.item('struct', 'SubroutineDef')
     f.item('enum', 'Type')
-    U.file(A).item('enum', 'ArithOp')
+    if arith_op:
+        U.file(A).item('enum', 'ArithOp')
     U.prelude('contracts/types.prelude.rs')
 
     f.impl('ArrayDims', [
@@ -125,7 +131,7 @@ ensures
     ((*ty1 is Int || *ty1 is UInt) && (*ty_lit is Float || *ty_lit is Complex)) ==> !r,   //@C20:cast-excludes
     (*ty1 is Float && *ty_lit is Complex) ==> !r,                                     //@C20:cast-excludes
 ''')
-    U.file(A).fn('implicit_cast_type', ret='r', props=['C20', 'C08'],
+    U.implicit_cast_kw = dict(ret='r', props=['C20', 'C08'],
                  rewrites=[('D13', 'types::promote_types(', 'promote_types(', 3)],
                  spec='''
 ensures
@@ -137,9 +143,12 @@ ensures
          && ((r != Type::Void && !co_const(*ty1, *ty2)) ==> (sp_is_const(r) ==> sp_is_const(*ty1) && sp_is_const(*ty2)))),  //@C20,C08:arith-common-type
     (*op is Div && !(*ty1 is Float) && !(*ty2 is Float)) ==> r == Type::Float(None, IsConst::False),   //@C20,C08:arith-common-type
 ''')
+    if arith_op:
+        U.file(A).fn('implicit_cast_type', **U.implicit_cast_kw)
 
     # property clauses derived from the contracts (two-call / lemma-style obligations)
-    U.raw(open(__file__.replace('units/types.py', 'contracts/types.lemmas.rs')).read(), note='lemmas')
+    if with_lemmas:
+        U.raw(open(__file__.replace('units/types.py', 'contracts/types.lemmas.rs')).read(), note='lemmas')
     U.trusted_decl = []
     U.assumed_dep = [
         'std::cmp::max::<u32> returns the larger argument (assume_specification)',
@@ -147,4 +156,3 @@ ensures
         'derive(Clone/PartialEq/Eq/Debug) on IsConst, BaseType, ArrayDims, SubroutineDef, Type, ArithOp: clone returns an equal value, == is structural equality (external_body impls)',
     ]
     U.not_verified = ['ArrayDims::dims, Type::dims (vec! construction; not used by any contract)']
-    return U
